@@ -1404,6 +1404,16 @@ def judge_placement(run, place, attr, obs, want, w, vals):
         else:
             if failing != "y":
                 return "unjudged"       # x (or an operand) failed first: y was never reached
+            if place in ("size", "count") and holder is not None:
+                # x comes first and took more than its share of the input's tail: that y did not find its bytes says nothing
+                # about y's expression
+                try:
+                    taken = len(getattr(holder, "x"))
+                except Exception:
+                    taken = None
+                if taken is None or taken > TAIL:
+                    run.count("p2_sibling_not_judged_first_field_beyond_its_share")
+                    return "unjudged"
             out = ("perr", payload)
 
     def bad(what):
@@ -1583,7 +1593,13 @@ def part2(run, rng, ntrees, maxdepth, ninputs, tag, sibling_share):
                         failed_before[(p, "x")] = True
                     elif st == "violation":
                         ok = False
-                    if sib and st in ("value", "unjudged"):
+                    x_takes_too_much = (p in ("size", "count") and isinstance(want, tuple) and len(want) > 1 and isinstance(want[1], int)
+                                        and not isinstance(want[1], bool) and want[1] > TAIL)
+                    if sib and x_takes_too_much:
+                        # x comes first in the class and takes more than its share of the input's tail: whether y still finds its
+                        # bytes says nothing about y's expression
+                        run.count("p2_sibling_not_judged_first_field_beyond_its_share")
+                    if sib and st in ("value", "unjudged") and not x_takes_too_much:
                         sw = dict(w, expression=sib["dsrc"], eager_python=sib["psrc"], sibling_of=item["dsrc"],
                                   changed_constant=sib["changed"])
                         st2 = judge_placement(run, p, "y", obs, swant, sw, vals)
